@@ -13,6 +13,9 @@ use proto::*;
 use serde_json::{json, Value};
 use std::collections::{BTreeMap, BTreeSet};
 
+/// 1 = the undisturbed execution of the item's scenario succeeded, 0 = it failed, -1 = unknown
+pub static BASELINE_OK: std::sync::atomic::AtomicI8 = std::sync::atomic::AtomicI8::new(-1);
+
 pub struct World {
     pub before: Snap,
     pub labels: BTreeMap<(u64, u64), String>,
@@ -602,6 +605,20 @@ pub fn items(prop: &str, tier: &str) -> Vec<Item> {
             }
         }
         "C16" => {
+            // errno attribution under faults: C API operations that succeed undisturbed, one system call made to fail
+            {
+                let mut f: Vec<Scenario> = Vec::new();
+                for b in ["K", "E"] {
+                    let c = |n: &str| Op::new(n).capi().root(ROOT_IN);
+                    let mut ops = vec![c("resolve").path("a/b/lnk/f"), c("mkdir_all").path("a/b/x/y").mode(0o755), c("remove_all").path("a"), c("readlink").path("a/b/lnk").bufsize(64),
+                        c("open_subpath").path("abs/../b/c/../../../e/f").flags(O_RDONLY), c("create_file").path("a/b/newf").flags(O_WRONLY | O_EXCL).mode(0o644), c("rename").path("e/f").path2("a/b/f2").flags(0),
+                        Op::new("reopen").handle("h:e/f").flags(O_RDONLY).capi(), Op::new("proc_readlink").base("thread-self").path("cwd").capi(), Op::new("proc_open").base("self").path("status").flags(O_RDONLY).capi()];
+                    if th { ops.extend(vec![c("remove_dir").path("a/b/c/d"), c("remove_file").path("e/f"), c("hardlink").path("a/b/hl").path2("e/f"), c("symlink").path("a/b/sl").path2("../x"), c("mkdir").path("a/b/nd").mode(0o755), c("mknod").path("a/b/nf").mode(0o010644),
+                        c("resolve_nofollow").path("a/b/lnk"), Op::new("proc_open").base("self").path("exe").flags(O_RDONLY | O_NOFOLLOW | O_PATH).capi(), Op::new("proc_open").base("thread-self").path("fd/3").flags(O_PATH).capi()]); }
+                    for op in ops { f.push(Scenario { name: format!("errno:{}/{}", b, op.brief()), backend: b.into(), op, path: String::new() }); }
+                }
+                for s in f.into_iter().step_by(if th { 1 } else { 2 }) { v.push(item(s, Plan::Fault { bound: 1, cfg: FaultCfg { all_syscalls: th, per_class: if th { 7 } else { 2 }, eagain_runs: vec![], exhaustion: false, custom: None } }, if th { 40_000 } else { 2_500 })); }
+            }
             // C-API lookups: safety violations from EAGAIN storms (kernel backend) and from attacker schedules (emulated backend)
             for p in ["a/b/c/d", "a/b/../b/c/../../b/c/d"] {
                 for name in ["resolve", "open_subpath"] {
@@ -929,10 +946,19 @@ fn judge(prop: &str, it: &Item, scen: &Scenario, w: &World, eo: &ExecOut, counts
                             let storm = eo.faults.iter().any(|(_, f)| f == "EAGAINx16");
                             if (safety || storm) && ce.errno as i32 != libc::EXDEV { v.push((format!("safety-errno:{}", errname(ce.errno as i32)), format!("detected attack / EAGAIN storm reported errno {} ({}) instead of EXDEV", errname(ce.errno as i32), ce.desc))); }
                             // an injected errno must be the one reported (errno of the failing system call)
-                            if let Some((i, f)) = eo.faults.first() {
-                                if !f.starts_with("EAGAIN") && !f.starts_with("EXHAUST") {
-                                    let tolerated = o.ok;
-                                    let _ = (i, tolerated);
+                            // the statement enumerates what the errno can be: the errno of the failing system call, EINVAL, EXDEV, ENOSYS -
+                            // never "no errno at all"
+                            if ce.errno == 0 { v.push(("errno-zero".into(), format!("pathrs_errorinfo reports errno 0 for a failed call ({})", ce.desc.chars().take(200).collect::<String>()))); }
+                            // an operation that succeeds undisturbed and fails because exactly one system call was made to fail with E:
+                            // the errno is E (or EXDEV if the library treats the failure as an attack), unless a system call that
+                            // really failed after the injection is what ended the operation
+                            else if let Some((i, f)) = eo.faults.first() {
+                                if !f.starts_with("EAGAIN") && !f.starts_with("EXHAUST") && eo.faults.len() == 1 && BASELINE_OK.load(std::sync::atomic::Ordering::Relaxed) == 1 {
+                                    let inj = eo.events.get(*i).and_then(|e| e.injected).unwrap_or(0);
+                                    let later_real: BTreeSet<i64> = eo.events.iter().skip(*i + 1).filter(|e| e.injected.is_none() && e.rval < 0 && e.rval > -4096).map(|e| -e.rval).collect();
+                                    if inj != 0 && ce.errno as i32 != inj && ce.errno as i32 != libc::EXDEV && !later_real.contains(&(ce.errno as i64)) {
+                                        v.push((format!("errno-of-failing-syscall:{}:{}->{}", eo.events.get(*i).map(|e| e.name.clone()).unwrap_or_default(), f, errname(ce.errno as i32)), format!("the call succeeds undisturbed; syscall {} was made to fail with {}, the call failed, no later system call failed with {}, yet errorinfo reports errno {} ({})", eo.events.get(*i).map(|e| e.brief()).unwrap_or_default(), f, errname(ce.errno as i32), errname(ce.errno as i32), ce.desc.chars().take(240).collect::<String>())));
+                                    }
                                 }
                             }
                         }
@@ -1031,7 +1057,7 @@ pub fn run_item(prop: &str, tier: &str, idx: usize, only: Option<&Value>) -> MRe
         let mut specs = vec![spec_for(&it, scen)];
         for o in &it.others { specs.push(spec_for(&it, o)); }
         let nworkers = specs.len();
-        let cfg = ExecCfg { specs, mode, root_out: out(ROOT_IN), horizon: 300_000, timeout_s: 60, attack_procfs: prop_is_c06, scripted: it.scripted.clone() };
+        let cfg = ExecCfg { abort_on_noise: !confirm, specs, mode, root_out: out(ROOT_IN), horizon: 300_000, timeout_s: 60, attack_procfs: prop_is_c06, scripted: it.scripted.clone() };
         let eo = execute(&cfg, ch)?;
         // An openat2 that the kernel aborted with EAGAIN on its own (something else on the machine renamed or mounted during
         // the call; our own mutations happen while the worker is stopped) changes the library's syscall sequence. Such an
@@ -1114,10 +1140,11 @@ pub fn run_item(prop: &str, tier: &str, idx: usize, only: Option<&Value>) -> MRe
         while tries < 20 {
             tries += 1;
             let _w = fresh_world()?;
-            let cfg = ExecCfg { specs: vec![spec_for(&it, &scen)], mode: Mode::Trace, root_out: out(ROOT_IN), horizon: 300_000, timeout_s: 60, attack_procfs: prop_is_c06, scripted: None };
+            let cfg = ExecCfg { abort_on_noise: false, specs: vec![spec_for(&it, &scen)], mode: Mode::Trace, root_out: out(ROOT_IN), horizon: 300_000, timeout_s: 60, attack_procfs: prop_is_c06, scripted: None };
             let eo = execute(&cfg, &mut Chooser::new(vec![]))?;
             if eo.events.iter().any(|e| e.name == "openat2" && e.rval == -(libc::EAGAIN as i64)) { continue; }
             let sigs: Vec<String> = eo.events.iter().map(|e| e.sig()).collect();
+            BASELINE_OK.store(match eo.final_obs(0) { Some(o) if o.ok && o.panic.is_none() => 1, _ => 0 }, std::sync::atomic::Ordering::Relaxed);
             match &undisturbed {
                 None => undisturbed = Some(sigs),
                 Some(prev) => {
@@ -1218,7 +1245,7 @@ pub fn trace_cmd(backend: &str, op: Op, warm: bool) -> MResult<()> {
     let w = fresh_world()?;
     let mut os = oneshot(backend, op.clone(), warm);
     os.warmup.extend(handle_warmup(&op));
-    let cfg = ExecCfg { specs: vec![os], mode: Mode::Trace, root_out: out(ROOT_IN), horizon: 500_000, timeout_s: 60, attack_procfs: false, scripted: None };
+    let cfg = ExecCfg { abort_on_noise: false, specs: vec![os], mode: Mode::Trace, root_out: out(ROOT_IN), horizon: 500_000, timeout_s: 60, attack_procfs: false, scripted: None };
     let t0 = now();
     let eo = execute(&cfg, &mut Chooser::new(vec![]))?;
     for (i, e) in eo.events.iter().enumerate() {
